@@ -22,6 +22,7 @@ import (
 	gpb "github.com/openconfig/gnmi/proto/gnmi"
 	"github.com/openconfig/gnmi/value"
 	"github.com/openconfig/gnmi/zz_verif/vh"
+	"google.golang.org/protobuf/proto"
 	anypb "google.golang.org/protobuf/types/known/anypb"
 )
 
@@ -119,16 +120,20 @@ type Res struct {
 
 // Case is what is written to cases_k.json and read back for replay.
 type Case struct {
-	Family string   `json:"family"`
-	Kind   string   `json:"kind"` // index complete join query fromto toscalar equal
-	Prefix bool     `json:"prefix,omitempty"`
-	Pre    *PathJ   `json:"pre,omitempty"`
-	P      *PathJ   `json:"p,omitempty"`
-	Q      []BS     `json:"q,omitempty"`
-	X      *ScalarJ `json:"x,omitempty"`
-	T      *TVJ     `json:"t,omitempty"`
-	A      *TVJ     `json:"a,omitempty"`
-	B      *TVJ     `json:"b,omitempty"`
+	Family  string   `json:"family"`
+	Kind    string   `json:"kind"` // index complete join query fromto toscalar equal
+	Prefix  bool     `json:"prefix,omitempty"`
+	Pre     *PathJ   `json:"pre,omitempty"`
+	P       *PathJ   `json:"p,omitempty"`
+	Q       []BS     `json:"q,omitempty"`
+	X       *ScalarJ `json:"x,omitempty"`
+	T       *TVJ     `json:"t,omitempty"`
+	A       *TVJ     `json:"a,omitempty"`
+	B       *TVJ     `json:"b,omitempty"`
+	Reuse   bool     `json:"reuse,omitempty"`   // index: the one long-lived *gnmi.Path object, refilled in place
+	SamePtr bool     `json:"sameptr,omitempty"` // equal: Equal(a, a) on one pointer
+	Group   [][]BS   `json:"group,omitempty"`   // query: all queries of the one client.Query; Q = Group[GI]
+	GI      int      `json:"gi,omitempty"`
 	// observations (recomputed on replay)
 	Obs  []Res `json:"obs,omitempty"`
 	JSON []BS  `json:"json_valid,omitempty"`
@@ -418,48 +423,185 @@ func validJSON(ts ...*TVJ) []BS {
 	return out
 }
 
+// reusePath is ONE long-lived object refilled in place by the index-reuse
+// family (a result memoised by pointer goes stale on it); decoyPath is a long
+// unrelated path indexed between observations (a shared result buffer would
+// be overwritten by it).
+var reusePath = &gpb.Path{}
+var decoyPath = func() *gpb.Path {
+	p := &gpb.Path{Target: "decoyT", Origin: "decoyO"}
+	for i := 0; i < 30; i++ {
+		p.Elem = append(p.Elem, &gpb.PathElem{Name: fmt.Sprintf("decoy%d", i), Key: map[string]string{"dk1": "dv1", "dk2": "dv2"}})
+	}
+	return p
+}()
+
+func clonePath(p *gpb.Path) *gpb.Path {
+	if p == nil {
+		return nil
+	}
+	return proto.Clone(p).(*gpb.Path)
+}
+
+func samePath(a, b *gpb.Path) bool {
+	if a == nil || b == nil {
+		return a == nil && b == nil
+	}
+	return proto.Equal(a, b)
+}
+
+func sameStrs(a, b []string) bool {
+	if len(a) != len(b) {
+		return false
+	}
+	for i := range a {
+		if a[i] != b[i] {
+			return false
+		}
+	}
+	return true
+}
+
+// runIndex indexes one path indexRuns times: the first half on freshly built
+// objects, the second half on one object (the long-lived one for Reuse).
+// Every second result is scribbled on right away (a result aliasing the path
+// corrupts the next run), the others are retained untouched and compared with
+// their copy after an unrelated path has been indexed (a shared buffer shows).
+func runIndex(c *Case, r *vh.Rand) {
+	var shared *gpb.Path
+	if c.Reuse && c.P != nil && !c.P.Nil {
+		src := mkPath(c.P, r)
+		reusePath.Reset()
+		reusePath.Target, reusePath.Origin, reusePath.Elem, reusePath.Element = src.Target, src.Origin, src.Elem, src.Element
+		shared = reusePath
+	} else {
+		shared = mkPath(c.P, r)
+	}
+	raw := make([][]string, indexRuns)
+	cp := make([][]string, indexRuns)
+	obs := make([]Res, indexRuns)
+	for i := 0; i < indexRuns; i++ {
+		in := shared
+		if i < indexRuns/2 && !c.Reuse {
+			in = mkPath(c.P, r)
+		}
+		keep := clonePath(in)
+		i := i
+		obs[i] = guard(func() Res {
+			raw[i] = path.ToStrings(in, c.Prefix)
+			cp[i] = append([]string{}, raw[i]...)
+			return Res{R: "ok"}
+		})
+		if obs[i].R == "ok" && !samePath(keep, in) {
+			obs[i] = Res{R: "err", Msg: "input modified"}
+		}
+		if i%2 == 0 {
+			for j := range raw[i] {
+				raw[i][j] = "scribbled"
+			}
+		}
+	}
+	guard(func() Res { path.ToStrings(decoyPath, true); return Res{} })
+	for i := range obs {
+		if obs[i].R != "ok" {
+			continue
+		}
+		if i%2 == 1 && !sameStrs(raw[i], cp[i]) {
+			obs[i] = Res{R: "err", Msg: "result changed by a later call (shared buffer)"}
+			continue
+		}
+		obs[i].Strs = bss(cp[i])
+	}
+	c.Obs = append(c.Obs, obs...)
+}
+
 func run(c *Case, r *vh.Rand) {
 	c.Obs = nil
 	switch c.Kind {
 	case "index":
-		for i := 0; i < indexRuns; i++ {
-			c.Obs = append(c.Obs, guard(func() Res {
-				return Res{R: "ok", Strs: bss(path.ToStrings(mkPath(c.P, r), c.Prefix))}
-			}))
+		runIndex(c, r)
+	case "complete", "join":
+		call := func(pre, p *gpb.Path) ([]string, error) {
+			if c.Kind == "join" {
+				return cache.VerifJoinPrefixAndPath(pre, p), nil
+			}
+			return path.CompletePath(pre, p)
 		}
-	case "complete":
 		c.Obs = append(c.Obs, guard(func() Res {
-			s, err := path.CompletePath(mkPath(c.Pre, r), mkPath(c.P, r))
+			pre, p := mkPath(c.Pre, r), mkPath(c.P, r)
+			kpre, kp := clonePath(pre), clonePath(p)
+			s1, err := call(pre, p)
 			if err != nil {
+				if !samePath(kpre, pre) || !samePath(kp, p) {
+					return Res{R: "err", Msg: "input modified"}
+				}
+				if _, err2 := call(pre, p); err2 == nil {
+					return Res{R: "panic", Msg: "second call on the same input succeeded"}
+				}
 				return Res{R: "err", Msg: err.Error()}
 			}
-			return Res{R: "ok", Strs: bss(s)}
-		}))
-	case "join":
-		c.Obs = append(c.Obs, guard(func() Res {
-			return Res{R: "ok", Strs: bss(cache.VerifJoinPrefixAndPath(mkPath(c.Pre, r), mkPath(c.P, r)))}
+			first := append([]string{}, s1...)
+			// an aliased or shared result shows when another call is made and the first result is scribbled on
+			call(decoyPath, decoyPath)
+			if !sameStrs(s1, first) {
+				return Res{R: "panic", Msg: "result changed by a later call (shared buffer)"}
+			}
+			for j := range s1 {
+				s1[j] = "scribbled"
+			}
+			s2, err := call(pre, p)
+			if err != nil || !sameStrs(s2, first) {
+				return Res{R: "panic", Msg: "second call on the same input differs (result aliases the input)"}
+			}
+			if !samePath(kpre, pre) || !samePath(kp, p) {
+				return Res{R: "panic", Msg: "input modified"}
+			}
+			return Res{R: "ok", Strs: bss(first)}
 		}))
 	case "query":
 		c.Obs = append(c.Obs, guard(func() Res {
-			q := make(client.Path, len(c.Q))
-			for i, s := range c.Q {
-				q[i] = string(s)
+			group := c.Group
+			gi := c.GI
+			if group == nil {
+				group, gi = [][]BS{c.Q}, 0
 			}
-			keep := append(client.Path{}, q...)
-			sr, err := gclient.VerifSubscribeRequest(client.Query{Target: "dev", Queries: []client.Path{q}, Type: client.Once})
-			for i := range q {
-				if q[i] != keep[i] {
-					return Res{R: "panic", Msg: "query path modified by the client"}
+			var qs, keeps []client.Path
+			for _, g := range group {
+				q := make(client.Path, len(g))
+				for i, s := range g {
+					q[i] = string(s)
+				}
+				qs = append(qs, q)
+				keeps = append(keeps, append(client.Path{}, q...))
+			}
+			sr, err := gclient.VerifSubscribeRequest(client.Query{Target: "dev", Queries: qs, Type: client.Once})
+			for k := range qs {
+				for i := range qs[k] {
+					if qs[k][i] != keeps[k][i] {
+						return Res{R: "panic", Msg: "query path modified by the client"}
+					}
 				}
 			}
 			if err != nil {
+				if len(group) > 1 {
+					// the error may stem from another query of the group: ask for this one alone
+					_, err1 := gclient.VerifSubscribeRequest(client.Query{Target: "dev", Queries: []client.Path{qs[gi]}, Type: client.Once})
+					if err1 == nil {
+						c.Group, c.GI = nil, 0
+						run(c, r)
+						return c.Obs[0]
+					}
+				}
 				return Res{R: "err", Msg: err.Error()}
 			}
 			subs := sr.GetSubscribe().GetSubscription()
-			if len(subs) != 1 {
-				return Res{R: "panic", Msg: fmt.Sprintf("%d subscriptions for one query", len(subs))}
+			if len(subs) != len(group) {
+				return Res{R: "panic", Msg: fmt.Sprintf("%d subscriptions for %d queries", len(subs), len(group))}
 			}
-			pp := subs[0].GetPath()
+			if pt := sr.GetSubscribe().GetPrefix().GetTarget(); pt != "dev" {
+				return Res{R: "panic", Msg: "prefix target " + pt}
+			}
+			pp := subs[gi].GetPath()
 			res := Res{R: "ok", Strs: bss(path.ToStrings(pp, false)), Elemnt: bss(pp.GetElement())}
 			if pp.GetTarget() != "" || pp.GetOrigin() != "" {
 				return Res{R: "panic", Msg: "target/origin set on the subscription path"}
@@ -513,8 +655,32 @@ func run(c *Case, r *vh.Rand) {
 			return Res{R: "ok", Sc: &p}
 		}))
 	case "equal":
-		c.Obs = append(c.Obs, guard(func() Res { return Res{R: "ok", Bool: value.Equal(mkTV(c.A), mkTV(c.B))} }))
-		c.Obs = append(c.Obs, guard(func() Res { return Res{R: "ok", Bool: value.Equal(mkTV(c.B), mkTV(c.A))} }))
+		eq := func(x, y *TVJ) Res {
+			return guard(func() Res {
+				a := mkTV(x)
+				b := mkTV(y)
+				if c.SamePtr {
+					b = a
+				}
+				var ka, kb *gpb.TypedValue
+				if a != nil {
+					ka = proto.Clone(a).(*gpb.TypedValue)
+				}
+				if b != nil {
+					kb = proto.Clone(b).(*gpb.TypedValue)
+				}
+				r1 := value.Equal(a, b)
+				r2 := value.Equal(a, b)
+				if r1 != r2 {
+					return Res{R: "err", Msg: "two calls on the same operands differ"}
+				}
+				if (a != nil && !proto.Equal(ka, a)) || (b != nil && !proto.Equal(kb, b)) {
+					return Res{R: "err", Msg: "operand modified"}
+				}
+				return Res{R: "ok", Bool: r1}
+			})
+		}
+		c.Obs = append(c.Obs, eq(c.A, c.B), eq(c.B, c.A))
 	default:
 		vh.Die("unknown case kind %q", c.Kind)
 	}
@@ -691,9 +857,9 @@ func caseTerm(n *vh.Names, c *Case) string {
 // ---------------------------------------------------------------------------
 // Generators
 
-var names = []BS{"a", "b", "", "*", "a/b", "é", "interfaces", "c"}
-var keyNames = []BS{"a", "b", "B", "aa", "", "é", "10", "9", "name", "z"}
-var keyVals = []BS{"z", "y", "x", "", "1", "*", "a/b", "é", "m"}
+var names = []BS{"a", "b", "", "*", "a/b", "é", "interfaces", "c", " a", "a ", "A", "a,b", "a[b=c]", "a:b", "..", "a\\/b"}
+var keyNames = []BS{"a", "b", "B", "aa", "", "é", "10", "9", "name", "z", " a", "a ", "a/b", "*"}
+var keyVals = []BS{"z", "y", "x", "", "1", "*", "a/b", "é", "m", " z", "Z", "z "}
 var targets = []BS{"", "dev1", "*"}
 var origins = []BS{"", "openconfig", "o"}
 
@@ -701,7 +867,7 @@ func randElem(r *vh.Rand, maxKeys int) ElemJ {
 	if r.Chance(1, 25) {
 		return ElemJ{Nil: true}
 	}
-	e := ElemJ{Name: names[r.Pick(6, 5, 1, 2, 2, 2, 2, 3)]}
+	e := ElemJ{Name: names[r.Pick(6, 5, 1, 2, 2, 2, 2, 3, 1, 1, 1, 1, 1, 1, 1, 1)]}
 	nk := r.Pick(4, 3, 4, 3, 1)
 	if nk > maxKeys {
 		nk = maxKeys
@@ -741,6 +907,68 @@ func randPath(r *vh.Rand) *PathJ {
 		p.Element = append(p.Element, "old", "form")
 	}
 	return p
+}
+
+// longPath has n elements of which every third carries nk keys (key names
+// k00..; values in reverse order so that value order differs from key order).
+func longPath(n, nk int, elementForm bool) *PathJ {
+	p := &PathJ{Target: "dev1", Origin: "oc"}
+	for i := 0; i < n; i++ {
+		if elementForm {
+			p.Element = append(p.Element, BS(fmt.Sprintf("e%d", i)))
+			continue
+		}
+		e := ElemJ{Name: BS(fmt.Sprintf("e%d", i))}
+		if i%3 == 0 {
+			for k := 0; k < nk; k++ {
+				e.Keys = append(e.Keys, [2]BS{BS(fmt.Sprintf("k%02d", (k*7)%nk)), BS(fmt.Sprintf("v%02d", nk-(k*7)%nk))})
+			}
+		}
+		p.Elems = append(p.Elems, e)
+	}
+	return p
+}
+
+// neighbour returns p with one spot changed (so that a result memoised under
+// an incomplete key is served for the wrong path).
+func neighbour(r *vh.Rand, p *PathJ) *PathJ {
+	b, _ := json.Marshal(p)
+	var q PathJ
+	json.Unmarshal(b, &q)
+	switch r.Intn(6) {
+	case 0:
+		q.Target += "x"
+	case 1:
+		q.Origin += "x"
+	case 2:
+		if len(q.Elems) > 0 {
+			i := r.Intn(len(q.Elems))
+			q.Elems[i].Name += "x"
+		} else {
+			q.Element = append(q.Element, "x")
+		}
+	case 3, 4:
+		for try := 0; try < 4; try++ {
+			if len(q.Elems) == 0 {
+				break
+			}
+			i := r.Intn(len(q.Elems))
+			if len(q.Elems[i].Keys) > 0 {
+				j := r.Intn(len(q.Elems[i].Keys))
+				if r.Chance(1, 2) {
+					q.Elems[i].Keys[j][1] += "x"
+				} else {
+					q.Elems[i].Keys[j][0] += "~"
+				}
+				break
+			}
+		}
+	default:
+		if len(q.Elems) > 1 {
+			q.Elems[0], q.Elems[len(q.Elems)-1] = q.Elems[len(q.Elems)-1], q.Elems[0]
+		}
+	}
+	return &q
 }
 
 // smallPaths enumerates a fixed family of paths for the origin / prefix
@@ -837,6 +1065,10 @@ func tvBasis() []TVJ {
 		{K: "double", Bits: 0x7ff8000000000002}, {K: "double", Bits: f64(math.Inf(1))}, {K: "double", Bits: f64(1.5)},
 		{K: "double", Bits: 1}, {K: "double", Bits: 2}, {K: "double", Bits: f64(1) + 1}, {K: "double", Bits: f64(math.Inf(-1))},
 		{K: "decimal", I: 0, Prec: 0}, {K: "decimal", I: 15, Prec: 1}, {K: "decimal", I: 15, Prec: 2}, {K: "decimal", I: 150, Prec: 2}, {K: "decimalnil"},
+		{K: "decimal", I: -15, Prec: 1}, {K: "decimal", I: math.MaxInt64, Prec: 0}, {K: "decimal", I: math.MinInt64, Prec: 18}, {K: "decimal", I: 1 << 32, Prec: 3},
+		{K: "decimal", I: 1, Prec: 45}, {K: "decimal", I: 1<<53 + 1, Prec: 7}, {K: "decimal", I: 7, Prec: 127}, {K: "decimal", I: 7, Prec: 128}, {K: "decimal", I: 7, Prec: 255},
+		{K: "decimal", I: 7, Prec: 256}, {K: "decimal", I: -7, Prec: 330}, {K: "decimal", I: 7, Prec: math.MaxUint32}, {K: "decimal", I: 7, Prec: 1 << 31}, {K: "decimal", I: 1<<31 - 1, Prec: 9}, {K: "decimal", I: -(1 << 31), Prec: 9},
+		{K: "int", I: math.MaxInt64}, {K: "int", I: 1 << 32}, {K: "int", I: 1 << 31}, {K: "int", I: -(1 << 32)}, {K: "uint", U: 1 << 32}, {K: "uint", U: 1 << 63}, {K: "uint", U: 1<<64 - 2},
 		{K: "leaflist"}, {K: "leaflistnil"},
 		{K: "leaflist", L: []TVJ{{K: "string", S: "a"}}},
 		{K: "leaflist", L: []TVJ{{K: "string", S: "a"}, {K: "int", I: 1}}},
@@ -886,8 +1118,13 @@ func randTV(r *vh.Rand, depth int) TVJ {
 			t.Bits = r.U64() & 0x8000000f
 		}
 	case "decimal":
-		if r.Chance(1, 2) {
+		switch r.Pick(2, 2, 2, 1) {
+		case 1:
 			t.I, t.Prec = int64(r.Intn(4)), uint32(r.Intn(3))
+		case 2:
+			t.I, t.Prec = int64(r.U64()), uint32(r.Intn(60))
+		case 3:
+			t.I, t.Prec = int64(r.U64()>>uint(r.Intn(64))), uint32(r.U64()>>uint(r.Intn(32)))
 		}
 	}
 	return t
@@ -905,9 +1142,27 @@ func nearMiss(r *vh.Rand, t TVJ) TVJ {
 		}
 		t.NilBuf = false
 	case "int":
-		t.I += int64(r.Intn(2))*2 - 1
+		switch r.Intn(5) {
+		case 0:
+			t.I += 1 << 32
+		case 1:
+			t.I ^= math.MinInt64
+		case 2:
+			t.I += 1 << 53
+		default:
+			t.I += int64(r.Intn(2))*2 - 1
+		}
 	case "uint":
-		t.U += uint64(r.Intn(2))*2 - 1
+		switch r.Intn(5) {
+		case 0:
+			t.U += 1 << 32
+		case 1:
+			t.U ^= 1 << 63
+		case 2:
+			t.U += 1 << 53
+		default:
+			t.U += uint64(r.Intn(2))*2 - 1
+		}
 	case "bool":
 		t.B = !t.B
 	case "float":
@@ -929,7 +1184,11 @@ func nearMiss(r *vh.Rand, t TVJ) TVJ {
 			t.Bits ^= 0x8000000000000000
 		}
 	case "decimal":
-		switch r.Intn(4) {
+		switch r.Intn(6) {
+		case 4:
+			t.I += 1 << 32
+		case 5:
+			t.Prec += 1 << (8 * uint(1+r.Intn(3)))
 		case 0:
 			t.I++
 		case 1:
@@ -982,7 +1241,8 @@ func scalarBasis() []ScalarJ {
 		{K: "string", S: "\xed\xa0\x80"}, {K: "string", S: "\xf4\x90\x80\x80"}, {K: "string", S: "\xc0\xaf"}, {K: "string", S: "\xf0\x9f\x98\x80"},
 		{K: "string", S: "\xe0\x9f\xbf"}, {K: "string", S: "\xef\xbf\xbd"}, {K: "string", S: "\xf4\x8f\xbf\xbf"},
 		{K: "int", I: -5}, {K: "int", I: math.MaxInt64}, {K: "int8", I: -128}, {K: "int8", I: 127}, {K: "int8", I: -1}, {K: "int16", I: -1}, {K: "int32", I: -1}, {K: "int16", I: 32767}, {K: "int32", I: math.MaxInt32}, {K: "int16", I: -32768}, {K: "int32", I: math.MinInt32},
-		{K: "int64", I: math.MinInt64}, {K: "int64", I: 0},
+		{K: "int64", I: math.MinInt64}, {K: "int64", I: 0}, {K: "int", I: 1 << 31}, {K: "int", I: 1 << 32}, {K: "int", I: math.MinInt64}, {K: "int64", I: 1<<53 + 1}, {K: "int16", I: -32768}, {K: "int32", I: -1 << 31},
+		{K: "uint", U: 1 << 31}, {K: "uint", U: 1 << 32}, {K: "uint", U: 1 << 63}, {K: "uint32", U: 1 << 31}, {K: "uint16", U: 1 << 15}, {K: "uint8", U: 128}, {K: "uint64", U: 1 << 63}, {K: "uint64", U: 1<<53 + 1},
 		{K: "uint", U: math.MaxUint64}, {K: "uint8", U: 255}, {K: "uint16", U: 65535}, {K: "uint32", U: math.MaxUint32}, {K: "uint64", U: math.MaxUint64}, {K: "uint64", U: 0},
 		{K: "float32", Bits: f32(1.5)}, {K: "float32", Bits: f32(0.1)}, {K: "float32", Bits: 0}, {K: "float32", Bits: 0x80000000}, {K: "float32", Bits: 1},
 		{K: "float32", Bits: 0x007fffff}, {K: "float32", Bits: 0x00800000}, {K: "float32", Bits: 0x7f7fffff}, {K: "float32", Bits: 0x7f800000}, {K: "float32", Bits: 0xff800000},
@@ -1160,7 +1420,7 @@ func main() {
 	flag.Set("logtostderr", "true")
 	flag.Set("stderrthreshold", "FATAL")
 	meta := vh.NewMeta("corpus cases; index: every path of a fixed family and seeded random paths (0..4 elems, 0..4 keys, nil path / nil elem / deprecated element form, names incl. empty, '*', 'a/b', UTF-8), each indexed 20 times on freshly built key maps; complete/join: all pairs of a 22-path family (origins, targets, prefix shapes) plus random pairs; query: all sequences of length <=2 over 14 plain elements, random longer ones, and a malformed stream; fromto/toscalar: a fixed basis of Go scalars / TypedValues plus seeded random nested ones; equal: all ordered pairs of the TypedValue basis plus random near-miss pairs. distinct = distinct input; non-trivial = index: some element has >=2 keys; complete/join: both paths non-nil; query: >=2 elements; fromto: FromScalar succeeded; toscalar: value set; equal: both operands in the same oneof arm")
-	e := &emitter{dir: o.Out, cf: vh.NewCaseFile(), meta: meta, limit: 1200, rnd: vh.NewRand(o.Seed ^ 0x5eed)}
+	e := &emitter{dir: o.Out, cf: vh.NewCaseFile(), meta: meta, limit: 500, rnd: vh.NewRand(o.Seed ^ 0x5eed)}
 
 	if o.Replay != "" {
 		for _, c := range readCases(o.Replay) {
@@ -1205,6 +1465,36 @@ func main() {
 		e.add(&Case{Family: "index-random", Kind: "index", Prefix: r.Chance(1, 2), P: randPath(r)})
 	}
 
+	// sizes around the pre-allocated capacity (20) of the result, 0/1/25 keys, both path forms
+	for _, n := range []int{1, 9, 10, 18, 19, 20, 21, 22, 25, 40} {
+		for _, nk := range []int{0, 1, 2, 25} {
+			for _, pf := range []bool{false, true} {
+				e.add(&Case{Family: "index-long", Kind: "index", Prefix: pf, P: longPath(n, nk, false)})
+			}
+		}
+		e.add(&Case{Family: "index-long", Kind: "index", Prefix: true, P: longPath(n, 0, true)})
+	}
+	// one long-lived object refilled in place; consecutive paths differ in one spot
+	for i := 0; i < 150*scale; i++ {
+		p := randPath(r)
+		pf := r.Chance(1, 2)
+		e.add(&Case{Family: "index-reuse", Kind: "index", Prefix: pf, P: p, Reuse: true})
+		if !p.Nil {
+			q := neighbour(r, p)
+			e.add(&Case{Family: "index-reuse", Kind: "index", Prefix: pf, P: q, Reuse: true})
+			e.add(&Case{Family: "index-reuse", Kind: "index", Prefix: !pf, P: q, Reuse: true})
+			e.add(&Case{Family: "index-neighbour", Kind: "index", Prefix: pf, P: p})
+			e.add(&Case{Family: "index-neighbour", Kind: "index", Prefix: pf, P: neighbour(r, p)})
+		}
+	}
+	for _, n := range []int{19, 20, 21, 25} {
+		a, b := longPath(n, 2, false), longPath(3, 25, false)
+		e.add(&Case{Family: "complete-long", Kind: "complete", Pre: a, P: &PathJ{Elems: b.Elems}})
+		e.add(&Case{Family: "complete-long", Kind: "complete", Pre: &PathJ{Target: "t", Elems: b.Elems}, P: &PathJ{Elems: a.Elems}})
+		e.add(&Case{Family: "join-long", Kind: "join", Pre: a, P: &PathJ{Elems: b.Elems}})
+		e.add(&Case{Family: "join-long", Kind: "join", Pre: &PathJ{Target: "t", Elems: b.Elems}, P: &PathJ{Elems: a.Elems}})
+	}
+
 	// --- CompletePath / joinPrefixAndPath
 	sp := smallPaths()
 	for _, a := range sp {
@@ -1229,6 +1519,28 @@ func main() {
 	}
 	for i := 0; i < 300*scale; i++ {
 		e.add(&Case{Family: "query-plain", Kind: "query", Q: randQuery(r, false)})
+	}
+	for i := 0; i < 100*scale; i++ {
+		n := 2 + r.Intn(3)
+		var group [][]BS
+		for k := 0; k < n; k++ {
+			group = append(group, randQuery(r, i%4 == 3))
+		}
+		if r.Chance(1, 3) { // the same query twice in one request
+			group = append(group, group[0])
+		}
+		for k := range group {
+			e.add(&Case{Family: "query-group", Kind: "query", Q: group[k], Group: group, GI: k})
+		}
+	}
+	for _, n := range []int{19, 20, 21, 40} {
+		var q []BS
+		for i := 0; i < n; i++ {
+			q = append(q, plainElems[i%len(plainElems)])
+		}
+		q = append(q, "end")
+		e.add(&Case{Family: "query-long", Kind: "query", Q: q})
+		e.add(&Case{Family: "query-long", Kind: "query", Q: []BS{BS(strings.Repeat("ab/é", n*10)), "x"}})
 	}
 	for _, a := range oddElems {
 		e.add(&Case{Family: "query-malformed", Kind: "query", Q: []BS{a}})
@@ -1282,6 +1594,63 @@ func main() {
 			e.add(&Case{Family: "equal-pairs", Kind: "equal", A: &a, B: &b})
 		}
 	}
+	// Equal(a, a) on ONE pointer (a pointer-equality fast path would answer true for NaN and the unhandled arms)
+	for i := range basis {
+		a := basis[i]
+		e.add(&Case{Family: "equal-sameptr", Kind: "equal", A: &a, B: &a, SamePtr: true})
+	}
+	// sizes: long leaf-lists differing only at the far end, deep nesting, long strings
+	for _, n := range []int{15, 16, 17, 31, 32, 33, 64, 65, 100, 257} {
+		mk := func(last int64) TVJ {
+			t := TVJ{K: "leaflist"}
+			for i := 0; i < n; i++ {
+				t.L = append(t.L, TVJ{K: "int", I: int64(i)})
+			}
+			t.L[n-1].I = last
+			return t
+		}
+		a, b, c2 := mk(1), mk(2), mk(1)
+		e.add(&Case{Family: "equal-size", Kind: "equal", A: &a, B: &b})
+		e.add(&Case{Family: "equal-size", Kind: "equal", A: &a, B: &c2})
+		e.add(&Case{Family: "toscalar-size", Kind: "toscalar", T: &a})
+		sa, sb := TVJ{K: "string", S: BS(strings.Repeat("x", n) + "a")}, TVJ{K: "string", S: BS(strings.Repeat("x", n) + "b")}
+		ba, bb := TVJ{K: "bytes", S: sa.S}, TVJ{K: "bytes", S: sb.S}
+		e.add(&Case{Family: "equal-size", Kind: "equal", A: &sa, B: &sb})
+		e.add(&Case{Family: "equal-size", Kind: "equal", A: &ba, B: &bb})
+		xs := ScalarJ{K: "string", S: BS(strings.Repeat("é", n) + "\xff")}
+		xl := ScalarJ{K: "list"}
+		xss := ScalarJ{K: "strings"}
+		for i := 0; i < n; i++ {
+			xl.L = append(xl.L, ScalarJ{K: "int8", I: int64(int8(i))})
+			xss.SS = append(xss.SS, BS(fmt.Sprint(i)))
+		}
+		xl2 := xl
+		xl2.L = append(append([]ScalarJ{}, xl.L...), ScalarJ{K: "string", S: "\xff"})
+		e.add(&Case{Family: "fromto-size", Kind: "fromto", X: &xs})
+		e.add(&Case{Family: "fromto-size", Kind: "fromto", X: &xl})
+		e.add(&Case{Family: "fromto-size", Kind: "fromto", X: &xl2})
+		e.add(&Case{Family: "fromto-size", Kind: "fromto", X: &xss})
+	}
+	for _, depth := range []int{3, 6, 12} {
+		mk := func(leaf TVJ) TVJ {
+			t := leaf
+			for i := 0; i < depth; i++ {
+				t = TVJ{K: "leaflist", L: []TVJ{{K: "uint", U: uint64(i)}, t}}
+			}
+			return t
+		}
+		a, b := mk(TVJ{K: "double", Bits: f64(1)}), mk(TVJ{K: "double", Bits: f64(1) + 1})
+		c2 := mk(TVJ{K: "double", Bits: f64(1)})
+		e.add(&Case{Family: "equal-size", Kind: "equal", A: &a, B: &b})
+		e.add(&Case{Family: "equal-size", Kind: "equal", A: &a, B: &c2})
+		e.add(&Case{Family: "toscalar-size", Kind: "toscalar", T: &a})
+		x := ScalarJ{K: "float32", Bits: 1}
+		for i := 0; i < depth; i++ {
+			x = ScalarJ{K: "list", L: []ScalarJ{{K: "int16", I: int64(-i)}, x}}
+		}
+		e.add(&Case{Family: "fromto-size", Kind: "fromto", X: &x})
+	}
+
 	// look-alikes across arms: the same number / the same bytes in every arm that can hold them
 	for _, v := range []int64{0, 1, 2} {
 		var fam []TVJ
